@@ -50,6 +50,8 @@ var out = bufio.NewWriterSize(os.Stdout, 1<<20)
 // world: shared across factories of one case
 
 type world struct {
+	tickAt     string            // ticks mode: the external call after which the clock jumps (KE, KD, S)
+	tickBy     time.Duration     // … and by how much
 	nonces     map[[44]byte]bool // (sha256(key), nonce) pairs of every successful AEAD encryption of this world
 	nonceReuse int
 	logLines   []string
@@ -203,7 +205,15 @@ func (s spyMS) Store(ctx context.Context, id string, created int64, ekr *appencr
 		b = 1
 	}
 	w.calls = append(w.calls, fmt.Sprintf("S:%s@%d:%d", kidName(id), created-t0, b))
+	w.tick("S")
 	return res, err
+}
+
+// tick: (ticks mode) time passes INSIDE an operation, while an external call is being served.
+func (w *world) tick(at string) {
+	if w.tickAt == at {
+		w.now = w.now.Add(w.tickBy)
+	}
 }
 
 // ---- spy KMS ---------------------------------------------------------------------------------
@@ -222,6 +232,7 @@ func (s spyKMS) EncryptKey(ctx context.Context, b []byte) ([]byte, error) {
 	} else {
 		w.calls = append(w.calls, "KE:ok")
 	}
+	w.tick("KE")
 	return r, err
 }
 
@@ -1440,6 +1451,56 @@ func rotationFaultCases(cfgs [][3]string) {
 	}
 }
 
+// tickCases: the clock moves while an operation is in flight (a slow KMS or metastore call that
+// straddles a creation-stamp boundary or the revoke-check interval).  Not replayed on the model (its
+// operations are instantaneous); the outcome is judged directly: every write succeeds with its key
+// chain stored, and a fresh factory decrypts every record.
+func tickCases() {
+	for _, cfg := range [][3]string{{"simple", "simple", "0"}, {"none", "none", "0"}, {"lru:1", "lru:1", "1"}} {
+		for _, at := range []string{"KE", "S"} {
+			for _, by := range []int64{1e9, 61e9, 3601e9} {
+				var buf bytes.Buffer
+				saved := out
+				out = bufio.NewWriter(&buf)
+				w := newWorld()
+				w.tickAt, w.tickBy = at, time.Duration(by)
+				w.exec(fmt.Sprintf("fac 0 %s sk=%s ik=%s shared=%s", facDefault, cfg[0], cfg[1], cfg[2]))
+				w.exec("sess 0 0 0")
+				w.exec("enc 0 1 flt=-")
+				w.exec("enc 0 2 flt=-")
+				w.exec("sess 0 1 1")
+				w.exec("enc 1 3 flt=-")
+				w.tickAt = "" // the reader's clock does not jump
+				w.exec(fmt.Sprintf("fac 1 %s sk=%s ik=%s shared=%s", facDefault, cfg[0], cfg[1], cfg[2]))
+				w.exec("sess 1 2 0")
+				w.exec("dec 2 0 flt=- mut=-")
+				w.exec("dec 2 1 flt=- mut=-")
+				w.exec("sess 1 3 1")
+				w.exec("dec 3 2 flt=- mut=-")
+				w.closeAll()
+				out.Flush()
+				out = saved
+				verdict := "ok"
+				for _, l := range strings.Split(buf.String(), "\n") {
+					switch {
+					case strings.HasPrefix(l, "enc ") && !(strings.Contains(l, "=> res=ok") && strings.Contains(l, "chain=1")):
+						verdict = "FAIL write did not succeed with its key chain stored: " + l
+					case strings.HasPrefix(l, "dec ") && !strings.Contains(l, "=> res=ok pay="):
+						verdict = "FAIL a fresh factory cannot decrypt the record: " + l
+					}
+					if verdict != "ok" {
+						break
+					}
+				}
+				fmt.Fprintf(out, "tick sk=%s ik=%s shared=%s at=%s by=%d => %s\n", cfg[0], cfg[1], cfg[2], at, by, verdict)
+				if verdict != "ok" {
+					fmt.Fprintf(out, "# history:\n# %s\n", strings.ReplaceAll(strings.TrimSpace(buf.String()), "\n", "\n# "))
+				}
+			}
+		}
+	}
+}
+
 func replay(path string) {
 	f, err := os.Open(path)
 	if err != nil {
@@ -1497,6 +1558,8 @@ func main() {
 		mutationCases(false)
 	case "allmutations":
 		mutationCases(true)
+	case "ticks":
+		tickCases()
 	case "boundaries":
 		boundaryCases(false)
 	case "allboundaries":
